@@ -119,7 +119,7 @@ Section Admission.
     | p :: _ => Some ((p + 1) mod 256)
     end.
 
-  Definition admit (s : step) (x : ctx) (m : msg) : outcome :=
+  Definition admission (s : step) (x : ctx) (m : msg) : outcome :=
     match kind_of s, m_pay m with
     | KPlain, PPlain session =>
         if should_accept (self1 x) (x_grp x) (x_ops x) (m_idx m) (m_key m)
@@ -175,7 +175,7 @@ Section Admission.
     match msgs with
     | [] => []
     | m :: t =>
-        let o := admit s x m in
+        let o := admission s x m in
         match o with
         | Proposal => [(m, o)]
         | _ => (m, o) :: run s (after s x m o) t
@@ -259,7 +259,7 @@ Definition well_formed (c : msg_case) : bool :=
   && match x_self (c_ctx c) with [] => false | _ => true end.
 
 Definition model_outcome (c : msg_case) : outcome :=
-  admit (fun _ => c_addr c) (c_step c) (c_ctx c) (c_msg c).
+  admission (fun _ => c_addr c) (c_step c) (c_ctx c) (c_msg c).
 
 Definition judge (c : case) : verdict :=
   match c with
